@@ -48,7 +48,10 @@ BOUNDS = {
 OUTSIDE = ["real HTTP/S3/DCOR access", "path resolution on a real file "
            "system (absolute/relative is a stub)", "more files than the "
            "bound", "internal basins (C07)"]
-STUBS = ["dataset universe: UDS(RTDCBase) with the real basin methods, "
+STUBS = ["the permission flag of a format = the value the real "
+         "RTDC_HDF5.__init__ assigns to a class of that format name (run "
+         "concretely on a tiny file)",
+         "dataset universe: UDS(RTDCBase) with the real basin methods, "
          "innate features as small arrays tagged with their file",
          "Basin subclasses for 'file/hdf5' and 'remote/http' whose "
          "_load_dataset opens a UDS; availability = symbolic bit",
@@ -66,6 +69,36 @@ BUDGET = 200
 
 class Budget(BaseException):
     pass
+
+
+_PERM = {}
+
+
+def local_basins_allowed(fmt):
+    """run the real RTDC_HDF5.__init__ (the base of the http / s3 / dcor
+    formats) on a tiny real file for a class whose format name is `fmt` and
+    read the flag it sets"""
+    if fmt not in _PERM:
+        import os
+        import tempfile
+        import h5py
+        from dclab.rtdc_dataset.fmt_hdf5 import RTDC_HDF5
+        cls = RTDC_HDF5 if fmt == "hdf5" else type(
+            "RTDC_" + fmt.upper(), (RTDC_HDF5,), {})
+        with tempfile.TemporaryDirectory(prefix="verif_c14_") as td:
+            pth = os.path.join(td, "t.rtdc")
+            with h5py.File(pth, "w") as h:
+                h.create_dataset("events/deform", data=np.linspace(.1, .2, 3))
+                h.attrs["setup:software version"] = "dclab 0.62.7"
+                h.attrs["experiment:event count"] = 3
+            with quiet():
+                ds = cls(pth)
+                try:
+                    assert ds.format == fmt
+                    _PERM[fmt] = bool(ds._local_basins_allowed)
+                finally:
+                    ds.close()
+    return _PERM[fmt]
 
 
 def build(world):
@@ -120,7 +153,9 @@ def build(world):
             spec = world["files"][name]
             self.spec, self.name = spec, name
             self.format = spec["fmt"]
-            self._local_basins_allowed = spec["fmt"] == "hdf5"
+            # the permission flag is whatever the REAL constructor of the
+            # HDF5-based formats assigns for this format name
+            self._local_basins_allowed = local_basins_allowed(spec["fmt"])
             self.path = name
             self.title = name
             self.config = Configuration()
@@ -222,7 +257,11 @@ def run(eng, p):
                 d = {"name": "b%d%d" % (i, j), "key": "key%d%d" % (i, j),
                      "mapping": "same" if p["mapping"] == "same"
                      else "basinmap0"}
-                if fmts[j] == "hdf5":
+                if fmts[j] == "hdf5" and p.get("mislabel"):
+                    # a definition that CLAIMS to be remote but names the
+                    # local-file basin format (wrong or malicious file)
+                    d.update(type="remote", format="hdf5", urls=["f%d" % j])
+                elif fmts[j] == "hdf5":
                     d.update(type="file", format="hdf5", paths=["f%d" % j])
                 else:
                     d.update(type="remote", format="http", urls=["f%d" % j])
@@ -258,6 +297,8 @@ def run(eng, p):
     for k in range(1, nf):
         f = UNIQUE[k]
         eng.prove(z3.BoolVal(True), "scenario-checked")
+        if p.get("mislabel"):
+            continue      # only isolation / termination are specified
         if f in fbas and k not in reach:
             eng.fail("feature of f%d offered although no chain of matching, "
                      "available, permitted basins leads to it" % k,
@@ -274,7 +315,7 @@ def run(eng, p):
             eng.fail("`in` disagrees with features_basin for f%d" % k)
     # completeness for a direct, valid, available basin
     if (0, 1) in adj and adj[(0, 1)] and hop_ok(F["f0"], F["f1"], mp) and \
-            UNIQUE[1] not in fbas:
+            UNIQUE[1] not in fbas and not p.get("mislabel"):
         eng.fail("direct matching basin f1 is not offered",
                  detail="ids=%r fmts=%r mapping=%s" % (rids, fmts, mp))
     for msg in world["isolation"]:
@@ -309,6 +350,13 @@ def cases(tier, seed):
                         rid0, rids, mapping, fmt0), dict(
                         nfiles=nf, edges=edges, rid0=rid0, rids=rids,
                         mapping=mapping, fmt0=fmt0)))
+    for fmt0 in ("hdf5", "http"):
+        for mapping in ("same", "mapped"):
+            out.append(("mislabelled basin type rid0=%s %s root=%s" % (
+                REF_ID, mapping, fmt0), dict(
+                nfiles=nf, edges=edges, rid0=REF_ID,
+                rids=[REF_ID] * (nf - 1), mapping=mapping, fmt0=fmt0,
+                mislabel=True)))
     random.Random(seed).shuffle(out)
     return out
 
@@ -335,6 +383,8 @@ def replay(case, params, v):
     rids = [p["rid0"]] + [p["rids"][k - 1] if k - 1 < len(p["rids"])
                           else REF_ID for k in range(1, nf)]
     what = str(v.get("what", ""))
+    if p.get("mislabel"):
+        return _replay_mislabel(p)
     if "isolation" in what or p["fmt0"] != "hdf5" or \
             any(f != "hdf5" for f in fmts):
         # needs a non-local dataset format: replay on the stub universe
@@ -419,6 +469,60 @@ def replay(case, params, v):
                 "detail": "scenario passes with real files: ids=%r adj=%r" %
                           (rids, [e for e in edges if adj[e]])}
     return {"reproduced": True, "key": classify(fails[0], rids, p),
+            "detail": fails[0]}
+
+
+def _replay_mislabel(p):
+    """real files, real classes: a dataset of a NON-local format (a subclass
+    of RTDC_HDF5 named RTDC_HTTP, i.e. format 'http', local basins not
+    allowed) whose file declares a basin {type: remote, format: hdf5,
+    urls: [<local path>]} must not read that local file"""
+    import os
+    import tempfile
+    import dclab
+    import dclab.rtdc_dataset.writer as W
+    from dclab.rtdc_dataset.fmt_hdf5 import RTDC_HDF5
+    old_version = W.version
+    W.version = "0.62.7"
+    fails = []
+    try:
+        with tempfile.TemporaryDirectory(prefix="verif_c14_") as td, quiet():
+            pa, pb = os.path.join(td, "a.rtdc"), os.path.join(td, "b.rtdc")
+            meta = {"setup": {"channel width": 20.0, "chip region": "channel",
+                              "flow rate": 0.04, "medium": "other"},
+                    "imaging": {"pixel size": 0.34},
+                    "experiment": {"run identifier": REF_ID}}
+            with W.RTDCWriter(pb, mode="reset") as hw:
+                hw.store_feature("deform", np.linspace(.01, .02, 3))
+                hw.store_feature("area_um", np.arange(3) + 110.)
+                hw.store_metadata(meta)
+            with W.RTDCWriter(pa, mode="reset") as hw:
+                hw.store_feature("deform", np.linspace(.01, .02, 3))
+                hw.store_metadata(meta)
+                hw.store_basin(basin_name="mislabelled", basin_type="remote",
+                               basin_format="hdf5", basin_locs=[pb],
+                               verify=False)
+
+            class RTDC_HTTP(RTDC_HDF5):      # format == "http"
+                pass
+            with RTDC_HTTP(pa) as ds:
+                if ds._local_basins_allowed:
+                    fails.append("a dataset of format %r allows local "
+                                 "basins" % ds.format)
+                elif "area_um" in ds.features_basin:
+                    fails.append(
+                        "dataset of format %r (local basins not allowed) "
+                        "reads the local file %s through a basin declared "
+                        "as type 'remote' / format 'hdf5': area_um = %r" % (
+                            ds.format, os.path.basename(pb),
+                            np.asarray(ds["area_um"]).tolist()))
+    finally:
+        W.version = old_version
+    if not fails:
+        return {"reproduced": False, "key": "not-reproduced",
+                "detail": "the mislabelled basin is not followed"}
+    return {"reproduced": True,
+            "key": "basins_retrieve|remote-typed-hdf5-basin|local-file-read",
             "detail": fails[0]}
 
 
